@@ -21,6 +21,7 @@ RULE = ("Hypothesis: base = well-formed sequence on 1-2 channels with time/key s
 RULE = RULE + " Round f: an identical ill-formed decoration (a pitch struck twice without note-off) on both sides."
 RULE = RULE + " Round i: enharmonic twins as the perturbed key value."
 RULE = RULE + " Round j: double perturbations (velocity + duration / pitch)."
+RULE = RULE + " Round k: two signatures of one kind on one tick, built through different representations."
 ASSUMPTIONS = ["for a single-note channel change the result under ignore_channel is not specified by the statement and not checked",
                "trailing rests (total duration) are not an attribute the statement lists; partners always have equal content"]
 TIERS = {"quick": dict(shards=8, examples=1200, alt_ppqn=[480], alt_shards=2),
@@ -106,7 +107,22 @@ def _case(draw):
     def sig_idx(kind):
         return [i for i, m in enumerate(om) if m[0] == kind]
 
-    if attr == "same":
+    if attr == "same" and not base.get("extra_abs") and meta and draw(st.integers(0, 4)) == 0:
+        # two different signatures of one kind on one tick (the later one is in force): the same events, in the same order, built
+        # once message by message in absolute time and once as a relative list
+        how = "rebuild"
+        m0 = draw(st.sampled_from(meta))
+        twin_sig = list(m0)
+        if m0[0] == "ts":
+            twin_sig[2] = m0[2] % 12 + 1
+        else:
+            twin_sig[2] = draw(st.sampled_from(gens.KEYS).filter(lambda v: v != m0[2]))
+        for spec_ in (base, other):
+            spec_["meta"] = [list(x) for x in meta] + [list(twin_sig)]
+            spec_["post"] = None
+            spec_.pop("perm", None)
+        base["route"], other["route"] = draw(st.sampled_from([("abs_sorted", "rel"), ("rel", "abs_sorted"), ("abs_obj", "rel")]))
+    elif attr == "same":
         how = draw(st.sampled_from(["self", "copy", "rebuild", "edited", "edited"]))
         if how == "edited" and on_:
             # the base is first compared once (any internal ordering is established), then one note is re-pitched in
